@@ -2184,3 +2184,25 @@ M("C10-base-list-declared-outside-the-loop", "C10", F_ST,
   "  for (di = _derivation.begin(); di != _derivation.end(); ++di) {\n    VFunctions vf;\n    CPPStructType *base = (*di)._base->as_struct_type();\n    if (base != nullptr) {\n      base->get_virtual_funcs(vf);",
   "  VFunctions vf;\n  for (di = _derivation.begin(); di != _derivation.end(); ++di) {\n    CPPStructType *base = (*di)._base->as_struct_type();\n    if (base != nullptr) {\n      base->get_virtual_funcs(vf);",
   expect="R10.11|get_virtual_funcs|")
+
+# ---- R16.6 (S9-C16: edges recorded only towards libraries already in the map)
+M("C16-edge-needs-base-library-already-known", "C16", F_IM,
+  "            if (baselib != library_name) {\n              deps.insert(std::move(baselib));",
+  "            if (baselib != library_name && dependencies.count(baselib) != 0) {\n              deps.insert(std::move(baselib));",
+  expect="R16.6|write_python_table_native|")
+M("C16-typedef-edge-needs-library-already-known", "C16", F_IM,
+  "            if (wrappedlib != library_name) {", "            if (wrappedlib != library_name && dependencies.find(wrappedlib) != dependencies.end()) {",
+  expect="R16.6|write_python_table_native|")
+M("C16-benign-edge-condition-reordered", "C16", F_IM,
+  "            if (baselib != library_name) {\n              deps.insert(std::move(baselib));",
+  "            if (!(library_name == baselib)) {\n              deps.insert(std::move(baselib));", benign=True)
+
+# ---- R09.12 (S9-C09: defined() looks into the table itself)
+M("C09-defined-searches-the-table-itself", "C09", F_PP,
+  "  char result = is_manifest_defined(name) ? '1' : '0';", "  char result = (_manifests.find(name) != _manifests.end()) ? '1' : '0';",
+  expect="R09.12|expand_defined_function|")
+M("C09-ifndef-searches-the-table-itself", "C09", F_PP,
+  "  if (is_manifest_defined(args)) {\n    // The macro is defined.  Skip stuff.", "  if (_manifests.count(args) != 0) {\n    // The macro is defined.  Skip stuff.",
+  expect="R09.12|handle_ifndef_directive|")
+M("C09-builtin-file-macro-not-defined", "C09", F_PP,
+  "      manifest_name == \"__FILE__\" ||\n", "", expect="R09.12|is_manifest_defined|built-ins")
